@@ -18,11 +18,13 @@ import (
 )
 
 type gen struct {
-	r    *rand.Rand
-	out  *bufio.Writer
-	n    int
-	tier string
-	pfx  string
+	r       *rand.Rand
+	out     *bufio.Writer
+	n       int
+	tier    string
+	pfx     string
+	longP   float64 // probability that text() returns a long text
+	longMax int     // its size in clusters, at most
 }
 
 func (g *gen) emit(kind string, args ...string) {
@@ -154,7 +156,50 @@ func (g *gen) para(mode int, lineSep string, maxLines int) string {
 	return s
 }
 
+// longText: several hundred to a few thousand clusters, with at least one line far longer than
+// any width and (sometimes) one word longer than a hundred clusters — sizes that fast paths,
+// caches and scratch buffers keyed on a length threshold only see here
+func (g *gen) longText(mode int, lineSep, paraSep string) string {
+	target := 500 + g.r.Intn(g.longMax-499)
+	var sb strings.Builder
+	n := 0
+	for n < target {
+		switch g.r.Intn(8) {
+		case 0:
+			sb.WriteString(paraSep)
+		case 1:
+			w := g.word(mode, 3)
+			for i := 0; i < 20+g.r.Intn(10); i++ {
+				w += g.cluster(mode)
+			}
+			if g.chance(0.3) {
+				for i := 0; i < 90; i++ {
+					w += g.cluster(mode)
+				}
+			}
+			sb.WriteString(w)
+			n += 30
+		case 2:
+			// one long line
+			for i := 0; i < 40+g.r.Intn(80); i++ {
+				sb.WriteString(g.word(mode, 6))
+				sb.WriteString(g.ws(mode))
+				n += 5
+			}
+			sb.WriteString(lineSep)
+		default:
+			sb.WriteString(g.line(mode, 8))
+			sb.WriteString(lineSep)
+			n += 20
+		}
+	}
+	return sb.String()
+}
+
 func (g *gen) text(mode int, lineSep, paraSep string) string {
+	if g.longP > 0 && g.chance(g.longP) {
+		return g.longText(mode, lineSep, paraSep)
+	}
 	switch g.r.Intn(12) {
 	case 0:
 		return ""
@@ -1339,6 +1384,16 @@ func cmdGen(group, tier string, seed int64) int {
 	k := 1
 	if tier == "thorough" {
 		k = 20
+	}
+	// a few long texts per group: one operation on ~1000 clusters costs the (quadratic) Lean model
+	// about half a second, so multi-step groups get shorter ones
+	switch group {
+	case "A-wrap", "A-justify", "A-align", "A-collapse", "A-indent", "A-lines", "A-apply", "A-para", "A-chars", "A-edit":
+		g.longP, g.longMax = 0.002, 2000
+	case "A-commit", "A-options2":
+		g.longP, g.longMax = 0.001, 900
+	case "POOL", "Z-prog":
+		g.longP, g.longMax = 0.02, 900 // few programs, many steps each
 	}
 	switch group {
 	case "G-class":
